@@ -197,7 +197,7 @@ func TestCheck(t *testing.T) {
 			}
 			// each remaining blob set gets an equal share of the remaining time
 			setsLeft--
-			slice := time.Now().Add(time.Until(deadline) / time.Duration(setsLeft+1))
+			slice := time.Now().Add(3 * time.Until(deadline) / time.Duration(setsLeft+3)) // up to 3 fair shares, never past the deadline
 			for _, perm := range [][]int{canon, rev} {
 				for k := 2; k <= 3 && k <= n; k++ {
 					if k == 3 && !vk.Thorough() && n > 3 {
